@@ -3,6 +3,7 @@
 """
 
 import itertools
+import os
 from operator import itemgetter
 
 import numpy as np
@@ -265,6 +266,10 @@ class PersLandscapeExact(PersLandscape):
 
         landscape_idx = 0
         L = []
+        # verification hook (inactive unless PERSIM_VERIF=1): count how often the
+        # repeated-bar shortcut below copies the previous depth
+        _verif = os.environ.get("PERSIM_VERIF") == "1"
+        _verif_shortcut_fired = 0
 
         # Sort A: read from right to left inside ()
         A = sorted(A, key=lambda x: [x[0], -x[1]])
@@ -302,6 +307,8 @@ class PersLandscapeExact(PersLandscape):
                     for _ in range(duplicate):
                         L.append(L[-1])
                         landscape_idx += 1
+                        if _verif:
+                            _verif_shortcut_fired += 1
 
                 else:
                     # set (b', d')  to be the first term so that d' > d
@@ -362,6 +369,8 @@ class PersLandscapeExact(PersLandscape):
         verboseprint("self.critical_pairs was empty and algorthim was executed")
         self.max_depth = len(L)
         self.critical_pairs = [item[1:-1] for item in L]
+        if _verif:
+            self._verif_shortcut_fired = _verif_shortcut_fired
 
     def compute_landscape_by_depth(self, depth: int) -> list:
         """
